@@ -63,7 +63,7 @@ m = {
  ],
  "checks": checks,
  "not_applicable": [{"property_id": p["id"], "reason": "check not built yet in this session; will be claimed once its check exists"} for p in props if p["id"] not in SPEC],
- "notes": "exit 0 held / 1 VIOLATION / 2 inconclusive. Known findings: known_findings.json (open: KNOWN-FINDING line + exclusion by construction; fixed: regression replay under replays/regress/<id>/). fix: commits in /repo: " + " ".join(fix_commits) + ". Seeded regressions: seeded/ (round 1: 40 of 40 caught; round 2: 39 of 40; DESIGN.md section 9).",
+ "notes": "exit 0 held / 1 VIOLATION / 2 inconclusive. Known findings: known_findings.json (open: KNOWN-FINDING line + exclusion by construction; fixed: regression replay under replays/regress/<id>/). fix: commits in /repo: " + " ".join(fix_commits) + ". Seeded regressions: seeded/ (round 1: 40 of 40 caught; round 2: 40 of 40; DESIGN.md section 9).",
 }
 json.dump(m, open(os.path.join(ROOT, "MANIFEST.json"), "w"), indent=1)
 print("claimed:", [c["property_id"] for c in checks])
